@@ -10,6 +10,7 @@ from .extend import (
     primitive,
     vspace,
 )
+from .tracer import getval
 from .util import subvals
 
 isinstance_ = isinstance
@@ -53,6 +54,16 @@ class SequenceBox(Box):
     def index(self, elt):
         return self._value.index(elt)
 
+    # (without these a traced tuple or list compares by identity: `t == (1.0, 2.0)` is False under
+    # differentiation and True on the plain value)
+    def __eq__(self, other):
+        return self._value == getval(other)
+
+    def __ne__(self, other):
+        return self._value != getval(other)
+
+    __hash__ = Box.__hash__
+
 
 SequenceBox.register(tuple_)
 SequenceBox.register(list_)
@@ -70,6 +81,14 @@ class DictBox(Box):
 
     def __contains__(self, elt):
         return elt in self._value
+
+    def __eq__(self, other):
+        return self._value == getval(other)
+
+    def __ne__(self, other):
+        return self._value != getval(other)
+
+    __hash__ = Box.__hash__
 
     def items(self):
         return list(self.iteritems())
